@@ -9,8 +9,10 @@ RULE = ("one record = MatchString, MatchRunes, FindStringMatch, FindRunesMatch, 
         "point equals API.tla's function of one search function (RegexSem.Find inside the fragment, the recorded rune searches "
         "outside: nullable loops, \\G, balancing groups), string results = rune results. non-trivial = records whose chain has >= 2 matches")
 STREAM = 100
-QUICK = [("frag", ["-n", "500", "-rtl", "both"]), ("wide", ["-n", "900", "-profile", "wide", "-rtl", "both"])]
-THOROUGH = [("frag%d" % i, ["-n", "1500", "-rtl", "both"]) for i in range(3)] + [("wide%d" % i, ["-n", "2500", "-profile", "wide", "-rtl", "both", "-maxlen", "14"]) for i in range(5)]
+QUICK = [("frag", ["-n", "500", "-rtl", "both"]), ("wide", ["-n", "800", "-profile", "wide", "-rtl", "both"]),
+         ("bal", ["-n", "300", "-profile", "balancing", "-rtl", "both"])]
+THOROUGH = [("frag%d" % i, ["-n", "1500", "-rtl", "both"]) for i in range(3)] + [("wide%d" % i, ["-n", "2500", "-profile", "wide", "-rtl", "both", "-maxlen", "14"]) for i in range(5)] + \
+           [("bal%d" % i, ["-n", "1500", "-profile", "balancing", "-rtl", "both"]) for i in range(2)]
 PROP = "C02"
 
 
